@@ -255,6 +255,14 @@ thread_local! {
     pub static ENV_TX: RefCell<Vec<Option<u32>>> = const { RefCell::new(Vec::new()) };
 }
 
+thread_local! {
+    pub static EXTRAS: RefCell<Vec<String>> = const { RefCell::new(Vec::new()) };
+}
+
+pub fn take_extras() -> Vec<String> {
+    EXTRAS.with(|t| std::mem::take(&mut *t.borrow_mut()))
+}
+
 pub fn take_env_tx() -> Vec<Option<u32>> {
     ENV_TX.with(|t| std::mem::take(&mut *t.borrow_mut()))
 }
@@ -351,6 +359,8 @@ fn interpret<C: Flavor, Q: CustomQuery>(
     let d = deps.as_ref();
     let probes: Vec<(String, String)> = script.probes.iter().map(|p| (run_probe(&d, &env, p), run_probe(&d, &env, p))).collect();
     ENV_TX.with(|t| t.borrow_mut().push(env.transaction.as_ref().map(|x| x.index)));
+    // everything else a contract is handed and no property speaks about: determinism transcripts only
+    EXTRAS.with(|t| t.borrow_mut().push(format!("env.transaction={:?}", env.transaction)));
     TRACE.with(|t| {
         t.borrow_mut().push(TraceEv {
             entry,
@@ -393,7 +403,7 @@ fn interpret<C: Flavor, Q: CustomQuery>(
         resp = resp.set_data(d.clone());
     }
     for s in &script.msgs {
-        let sm = SubMsg::<C> { id: s.id, payload: payload_bytes(&s.payload), msg: to_cosmos::<C>(&s.msg), gas_limit: None, reply_on: s.mode.to_std() };
+        let sm = SubMsg::<C> { id: s.id, payload: payload_bytes(&s.payload), msg: to_cosmos::<C>(&s.msg), gas_limit: if s.id % 3 == 0 { Some(s.id) } else { None }, reply_on: s.mode.to_std() };
         resp = resp.add_submessage(sm);
     }
     Ok(resp)
@@ -410,6 +420,9 @@ fn apply_writes(storage: &mut dyn Storage, writes: &[(Binary, Option<Binary>)]) 
 
 fn reply_script(reply: &Reply) -> (Script, (u64, Vec<u8>, ReplySeen)) {
     REPLY_GAS.with(|g| g.borrow_mut().push(reply.gas_used));
+    if let SubMsgResult::Ok(r) = &reply.result {
+        EXTRAS.with(|t| t.borrow_mut().push(format!("reply.msg_responses={:?}", r.msg_responses)));
+    }
     let seen = match &reply.result {
         #[allow(deprecated)]
         SubMsgResult::Ok(r) => ReplySeen::Ok { events: r.events.clone(), data: r.data.clone() },
